@@ -618,6 +618,12 @@ inductive PcStep (b b' : BState) (i : Nat) : CPc → CPc → Prop where
   | refHit (k e) : b.g.store.get? k = some e → e.alive b.g.now = true → PcStep b b' i (.refStore k) (.refPool k e.value)
   | refPool (k v) : Ret b b' i (.value (some v)) → PcStep b b' i (.refPool k v) .idle
 
+/-- closes a goal in which a position outside the tail of `put_or_update` is assumed to have a tail -/
+macro "tail_absurd" : tactic => `(tactic| (
+  exfalso
+  have ht : ∃ x, CPc.tail? _ = some x := ⟨_, by assumption⟩
+  simp [CPc.tail?] at ht))
+
 /-- the tail of `put_or_update`, as a `PcStep` -/
 theorem pcstep_upAfterIndex {b b0 : BState} {i id : Nat} {uw : Option Int} {pc : CPc} (hcl : b0.cl = b.cl) (hw : b0.w = b.w)
     (hsw : b0.sw = b.sw) (hcfg : b0.g.cfg = b.g.cfg) (hnow : b0.g.now = b.g.now) (hadm : b0.g.adm = b.g.adm)
@@ -1866,10 +1872,7 @@ theorem delItem_step {b b' : BState} {a : Act} {o o' : Oracle} {k : Nat} (hd : D
         case sendOk =>
           have hq' : b'.g.queue = b.g.queue ++ [(Cmd.delete k, some b.g.acks.length)] := by assumption
           exact Or.inl (Or.inl (Or.inr (Or.inl ⟨_, by rw [hq']; exact List.mem_append_right _ (List.mem_singleton.mpr rfl)⟩)))
-        all_goals
-          exfalso
-          have ht : ∃ x, (CPc.send (Cmd.delete k)).tail? = some x := ⟨_, by assumption⟩
-          simp [CPc.tail?] at ht
+        all_goals tail_absurd
       · refine Or.inl (Or.inl (Or.inl ⟨j, ?_⟩))
         rw [hf.cl, List.getElem?_set_ne (Ne.symm hji)]; exact hj
     · exact Or.inl (Or.inl (Or.inr (Or.inl ⟨hh, hqsub _ hd⟩)))
@@ -1971,11 +1974,11 @@ theorem softInv_step {b b' : BState} {a : Act} {o o' : Oracle} {k : Nat} (hi : S
         obtain ⟨pc, pc', hpc', hf, hq, hsp, hstep, hres, hnid⟩ := cact_frame hc hns.flag (fun pc hpc => hns.cl i pc hpc)
         rw [hpc] at hpc'; cases hpc'
         cases hstep
-        refine Or.inl (Or.inl ⟨i, ?_⟩)
-        rw [hf.cl]
-        exact List.getElem?_set_self (by
-          have := hpc
-          exact (List.getElem?_eq_some_iff.mp this).1)
+        case delMark =>
+          refine Or.inl (Or.inl ⟨i, ?_⟩)
+          rw [hf.cl]
+          exact List.getElem?_set_self (List.getElem?_eq_some_iff.mp hpc).1
+        all_goals tail_absurd
     · exact gen ⟨e', hk', hsoft'⟩
   case upsert i k0 v w ttl rm e0 exp hpc hk0 hx hst =>
     rw [hst, AMap.get?_set] at hk'
